@@ -4,7 +4,7 @@ from __future__ import annotations
 
 import itertools
 
-from ..symex import Sym, Falsy, T, SList, Engine, show
+from ..symex import Sym, Falsy, T, SList, Engine, show, gname
 from ..loader import AnalysisError, loc
 from ..report import RuleResult
 
@@ -211,7 +211,8 @@ def rule_nullstrict(P) -> RuleResult:
         if call is None or not hasattr(call, 'node'):
             raise AnalysisError(f'anchor vanished: {ci.name}.__call__')
         OPS = {a: Sym('NODE_' + a) for a in operands}
-        VALS = {a: Sym('VALUE_' + a) for a in operands}
+        # non-NULL values of undecided truth (zero amounts, empty strings, FALSE are values, not NULL); a bare symbol would be true
+        VALS = {a: T('attr', (Sym('ROW_VALUES'), a)) for a in operands}
         ok = True
         ncases = 0
         for combo in itertools.product((None, 'v'), repeat=len(operands)):
@@ -238,12 +239,22 @@ def rule_nullstrict(P) -> RuleResult:
                     return NotImplemented
 
                 def oracle(term, ex, _oc=outcomes):
+                    if isinstance(term, T) and term.op == 'cmp' and term.args[0] in ('is', 'is not') and None in term.args[1:] and \
+                            any(x in VALS.values() for x in term.args[1:]):
+                        return term.args[0] == 'is not'          # the values are not NULL
                     if isinstance(term, T) and term.op == 'cmp' and term.args[0] in ('<', '<=', '>', '>=', '==', '!='):
                         asked.append(1)
                         return _oc[(len(asked) - 1) % len(_oc)]
                     return None
                 paths = Engine(P, on_attr=on_attr, on_call=on_call, oracle=oracle).paths(call, {'self': NODE, call.params[1]: ROW})
                 desc = ', '.join(f'{a} {"NULL" if v is None else "non-NULL"}' for a, v in assign.items())
+                on_truth = [t for p_ in paths for t, _ in p_.decisions if t in VALS.values() or (isinstance(t, T) and t.op == 'not' and t.args[0] in VALS.values())]
+                if on_truth and all((t in VALS.values() or (isinstance(t, T) and t.op == 'not')) for p_ in paths for t, _ in p_.decisions):
+                    ok = False
+                    a_ = next(a for a, v in VALS.items() if v == (on_truth[0] if on_truth[0] in VALS.values() else on_truth[0].args[0]))
+                    res.fail(f'{ci.fq}.__call__', f'nullstrict:falsy:{a_}', f'{ci.name}: the *truth* of the non-NULL value of `{a_}` decides the result '
+                             f'({desc}): a zero amount, an empty string, an empty inventory or FALSE is taken for NULL', loc(call))
+                    break
                 if len(paths) != 1 or paths[0].decisions:
                     raise AnalysisError(f'{ci.fq}.__call__: not deterministic with {desc}: {[show(t)[:40] for p in paths for t, _ in p.decisions][:2]}')
                 p = paths[0]
@@ -469,6 +480,29 @@ def rule_accesseval(P) -> RuleResult:
                          f'{"gives `" + show(p.value)[:80] + "`" if p.outcome == "return" else "raises " + str(p.value[0])}', loc(call))
         if n == 0:
             raise AnalysisError(f'{call.fq}: no path for a non-NULL container')
+        # what is stored under a key is not known when the statement is compiled: subscripts announce `object` (operators then apply
+        # the implicit cast); an attribute node announces the dtype it is given (R-ACCESSNODE: the field's type)
+        init = ci.methods.get('__init__')
+        if init is not None and cname != 'EvalGetter':
+            announced = []
+
+            def on_call_i(fn, fv, rc, a, k, ex, nd):
+                if str(fn).endswith('__init__'):
+                    announced.append(tuple(a) + tuple(v for _, v in k))
+                    return None
+                return NotImplemented
+            env = {'self': NODE}
+            for i_, prm in enumerate(init.params[1:]):
+                env[prm] = Sym(f'CTOR_ARG{i_}')
+            for p in Engine(P, on_call=on_call_i, on_attr=lambda b, a, e: Sym('DTYPE_OF_' + str(b)) if a == 'dtype' else NotImplemented,
+                            max_depth=0).paths(init, env):
+                pass
+            dt = [x for tup in announced for x in tup if gname(x).split('.')[-1] == 'object']
+            if not announced or not dt or any(isinstance(x, Sym) and x.name.startswith('DTYPE_OF_') for tup in announced for x in tup):
+                good = False
+                res.fail(init.fq, 'accesseval:dtype', f'{cname} must announce `object`: the type of what a dictionary holds under a key is not '
+                         f'known at compile time (announcing the type of the default, or of anything else, lets typed operators and renderers '
+                         f'run on values of another type); it announces `{[show(x) for tup in announced for x in tup]}`', loc(init))
         if good:
             res.ok({'evaluator': cname, 'non_null_container': words})
     return res
